@@ -42,7 +42,7 @@ def find_span_binsearch(degree, knot_vector, num_ctrlpts, knot, **kwargs):
     # In The NURBS Book; number of knots = m + 1, number of control points = n + 1, p = degree
     # All knot vectors should follow the rule: m = p + n + 1
     n = num_ctrlpts - 1
-    if abs(knot_vector[n + 1] - knot) <= tol:
+    if knot >= knot_vector[n + 1]:
         return n
 
     # Set max and min positions of the array to be searched
